@@ -34,11 +34,14 @@ type Proxy struct {
 	closed    bool
 	upCh      chan struct{}
 	answer    map[string]string // method -> result JSON the proxy answers itself (the request is not forwarded)
+	// LastMonitorID is the JSON of the monitor id of the last monitor* request that went through
+	LastMonitorID json.RawMessage
 }
 
 type pair struct {
 	c, s net.Conn
 	once sync.Once
+	cw   sync.Mutex // serialises writes to the client (forwarded and injected messages)
 }
 
 func (p *pair) close() {
@@ -110,8 +113,14 @@ func (p *Proxy) pump(pr *pair, from, to net.Conn, dir string) {
 		}
 		if dir == "c2s" {
 			var m struct {
-				Method string          `json:"method"`
-				ID     json.RawMessage `json:"id"`
+				Method string            `json:"method"`
+				ID     json.RawMessage   `json:"id"`
+				Params []json.RawMessage `json:"params"`
+			}
+			if json.Unmarshal(raw, &m) == nil && len(m.Method) > 7 && m.Method[:7] == "monitor" && m.Method != "monitor_cancel" && len(m.Params) > 1 {
+				p.mu.Lock()
+				p.LastMonitorID = m.Params[1]
+				p.mu.Unlock()
 			}
 			p.mu.Lock()
 			ans := p.answer
@@ -129,7 +138,14 @@ func (p *Proxy) pump(pr *pair, from, to net.Conn, dir string) {
 			p.Fired <- "cut-inside " + dir
 			return
 		}
-		if _, err := to.Write(append(raw, '\n')); err != nil {
+		if dir == "s2c" {
+			pr.cw.Lock()
+		}
+		_, werr := to.Write(append(raw, '\n'))
+		if dir == "s2c" {
+			pr.cw.Unlock()
+		}
+		if werr != nil {
 			return
 		}
 		if fire != nil {
@@ -138,6 +154,29 @@ func (p *Proxy) pump(pr *pair, from, to net.Conn, dir string) {
 			return
 		}
 	}
+}
+
+// InjectToClient writes a message to every connected client as if the server had sent it.
+func (p *Proxy) InjectToClient(raw []byte) int {
+	p.mu.Lock()
+	cs := append([]*pair{}, p.conns...)
+	p.mu.Unlock()
+	n := 0
+	for _, c := range cs {
+		c.cw.Lock()
+		_, err := c.c.Write(append(append([]byte{}, raw...), '\n'))
+		c.cw.Unlock()
+		if err == nil {
+			n++
+		}
+	}
+	return n
+}
+
+func (p *Proxy) MonitorID() json.RawMessage {
+	p.mu.Lock()
+	defer p.mu.Unlock()
+	return p.LastMonitorID
 }
 
 // Answer makes the proxy reply to a method itself.
